@@ -125,6 +125,77 @@ func exec(op string) string {
 			return "inf"
 		}
 		return "ok " + Hex(p1.Bytes())
+	case "ecmrow": // ecmrow t na ng0 cnt : XYZ.ECmult(A = t*G, na, ng) for ng = ng0 .. ng0+cnt-1, A given as the 33-byte key in f[5]
+		var pk secp.XY
+		if err := pk.ParsePubkey(PHex(f[5])); err != nil {
+			return "badpub"
+		}
+		var na secp.Number
+		na.SetBytes(b32(new(big.Int).SetUint64(PU64(f[2]))))
+		var sb strings.Builder
+		sb.WriteString("ok")
+		for j := uint64(0); j < PU64(f[4]); j++ {
+			var a, r secp.XYZ
+			a.SetXY(&pk)
+			var ng secp.Number
+			ng.SetBytes(b32(new(big.Int).SetUint64(PU64(f[3]) + j)))
+			a.ECmult(&r, &na, &ng)
+			if r.IsInfinity() {
+				sb.WriteString(" inf")
+				continue
+			}
+			var o secp.XY
+			o.SetXYZ(&r)
+			sb.WriteString(" " + Hex(o.Bytes()))
+		}
+		return sb.String()
+	case "ecmult": // ecmult pubA na ng (32-byte scalars)
+		var pk secp.XY
+		if err := pk.ParsePubkey(PHex(f[1])); err != nil {
+			return "badpub"
+		}
+		var a, r secp.XYZ
+		a.SetXY(&pk)
+		var na, ng secp.Number
+		na.SetBytes(PHex(f[2]))
+		ng.SetBytes(PHex(f[3]))
+		a.ECmult(&r, &na, &ng)
+		if r.IsInfinity() {
+			return "inf"
+		}
+		var o secp.XY
+		o.SetXYZ(&r)
+		return "ok " + Hex(o.Bytes())
+	case "jadd": // jadd pubA pubB la lb : XYZ.Add of the two points given in Jacobian coordinates scaled by la, lb (Z = la, lb)
+		jac := func(pub []byte, l uint32) (secp.XYZ, bool) {
+			var pk secp.XY
+			if err := pk.ParsePubkey(pub); err != nil {
+				return secp.XYZ{}, false
+			}
+			var j secp.XYZ
+			j.SetXY(&pk)
+			var lf, l2, l3 secp.Field
+			lf.SetInt(l)
+			lf.Sqr(&l2)
+			l2.Mul(&l3, &lf)
+			j.X.Mul(&j.X, &l2)
+			j.Y.Mul(&j.Y, &l3)
+			j.Z = lf
+			return j, true
+		}
+		a, ok1 := jac(PHex(f[1]), uint32(PU64(f[3])))
+		b, ok2 := jac(PHex(f[2]), uint32(PU64(f[4])))
+		if !ok1 || !ok2 {
+			return "badpub"
+		}
+		var r secp.XYZ
+		a.Add(&r, &b)
+		if r.IsInfinity() {
+			return "inf"
+		}
+		var o secp.XY
+		o.SetXYZ(&r)
+		return "ok " + Hex(o.Bytes())
 	case "rawsign": // rawsign d z k : Signature.Sign with an explicit nonce
 		var d, z, k secp.Number
 		d.SetBytes(PHex(f[1]))
@@ -509,6 +580,152 @@ func gen(r *Rng, tier string, emit func(string)) {
 		}
 		if i%4 == 0 { // the real signer with its own random nonce (nonce read back by the driver)
 			emit("signhash " + Hex(b32(d)) + " " + h)
+		}
+	}
+	// --- group level: ECmult(A, na, ng) = na*A + ng*G on a small exhaustive grid with A = t*G. Inside ECmult the running sum
+	// and the next table entry are then small multiples of G too, so every "sum equals the point added next" (doubling branch
+	// of the Jacobian addition), "sum is its negative" and "sum is infinity" collision of small order occurs.
+	{
+		tmax, namax, ngcnt := 10, 12, 26
+		if thorough {
+			tmax, namax, ngcnt = 32, 32, 65
+		}
+		small := make([][]byte, tmax+1)
+		acc := eclib.Infinity
+		for t := 1; t <= tmax; t++ {
+			acc = eclib.Add(acc, eclib.G)
+			small[t] = eclib.Compress(acc)
+		}
+		for t := 1; t <= tmax; t++ {
+			for na := 0; na <= namax; na++ {
+				emit("ecmrow " + strconv.Itoa(t) + " " + strconv.Itoa(na) + " 0 " + strconv.Itoa(ngcnt) + " " + Hex(small[t]))
+			}
+		}
+		// structured scalars: powers of two, window boundaries of the wNAF recodings (5 bits for A, 14 bits for G), the
+		// relations na*t = ng (+-1), and the same modulo n (ng = n - na*t: the sum is the identity)
+		structured := []*big.Int{}
+		for _, e := range []uint{1, 2, 3, 4, 5, 6, 7, 8, 13, 14, 15, 16, 31, 32, 64, 127, 128, 129, 255} {
+			v := new(big.Int).Lsh(big.NewInt(1), e)
+			structured = append(structured, v, add(v, -1), add(v, 1))
+		}
+		ns := 40 * scale
+		for i := 0; i < ns; i++ {
+			t := 1 + r.Intn(tmax)
+			na := structured[r.Intn(len(structured))]
+			if r.Chance(40) {
+				na = big.NewInt(int64(r.Intn(70)))
+			}
+			prod := new(big.Int).Mul(na, big.NewInt(int64(t)))
+			var ng *big.Int
+			switch r.Intn(6) {
+			case 0:
+				ng = prod
+			case 1:
+				ng = add(prod, int64(r.Intn(3)-1))
+			case 2:
+				ng = new(big.Int).Sub(eclib.N, new(big.Int).Mod(prod, eclib.N))
+			case 3:
+				ng = new(big.Int).Mul(prod, big.NewInt(2))
+			case 4:
+				ng = structured[r.Intn(len(structured))]
+			default:
+				ng = big.NewInt(int64(r.Intn(70)))
+			}
+			ng = new(big.Int).Mod(ng, two256)
+			if ng.Sign() < 0 {
+				ng = big.NewInt(0)
+			}
+			emit("ecmult " + Hex(small[t]) + " " + Hex(b32(na)) + " " + Hex(b32(ng)))
+			if i%3 == 0 { // the same through the public multiplication entry points
+				if na.Sign() > 0 && na.Cmp(eclib.N) < 0 {
+					emit("mul " + Hex(small[t]) + " " + Hex(b32(na)))
+					emit("ecdh " + Hex(small[t]) + " " + Hex(b32(na)))
+				}
+			}
+		}
+		// the Jacobian addition itself, on equal / opposite / unrelated points in arbitrary representations (Z = 1, 2, 3, ...)
+		for i := 0; i < 25*scale; i++ {
+			t1 := 1 + r.Intn(tmax)
+			t2 := 1 + r.Intn(tmax)
+			pa, pb := small[t1], small[t2]
+			switch r.Intn(3) {
+			case 0:
+				pb = pa
+			case 1:
+				pb = append([]byte{pa[0] ^ 1}, pa[1:]...)
+			}
+			emit("jadd " + Hex(pa) + " " + Hex(pb) + " " + strconv.Itoa(1+r.Intn(5)) + " " + strconv.Itoa(1+r.Intn(5)))
+		}
+	}
+	// --- signature level: R = k*G with small / structured k, s = a*r, message = -b*r (mod n): recovery computes a*R + b*G,
+	// the key is (a*k + b)*G. With b = a*k the two halves of the double multiplication meet.
+	{
+		nfam := 24 * scale
+		for i := 0; i < nfam; i++ {
+			var k *big.Int
+			switch r.Intn(4) {
+			case 0:
+				k = big.NewInt(int64(1 + r.Intn(64)))
+			case 1:
+				k = new(big.Int).Lsh(big.NewInt(int64(1+r.Intn(15))), uint(r.Intn(120)))
+			case 2:
+				k = new(big.Int).Rsh(new(big.Int).SetBytes(r.Bytes(16)), uint(4+r.Intn(8)))
+				k.SetBit(k, 0, 0) // even nonce below 2^124
+			default:
+				k = validScalar(r, edges)
+			}
+			if k.Sign() == 0 {
+				k = big.NewInt(2)
+			}
+			a := big.NewInt(int64(1 + r.Intn(15)))
+			if r.Chance(25) {
+				a = big.NewInt(int64(1 + r.Intn(64)))
+			}
+			ak := new(big.Int).Mul(a, k)
+			var b *big.Int
+			switch r.Intn(5) {
+			case 0, 1:
+				b = ak // the halves collide
+			case 2:
+				b = add(ak, int64(r.Intn(3)-1))
+			case 3:
+				b = big.NewInt(int64(r.Intn(64)))
+			default:
+				b = new(big.Int).Sub(eclib.N, new(big.Int).Mod(ak, eclib.N)) // key would be the identity: no key
+			}
+			b.Mod(b, eclib.N)
+			R := eclib.Mul(k, eclib.G)
+			if R.Inf {
+				continue
+			}
+			rr := new(big.Int).Mod(R.X, eclib.N)
+			recid := int(R.Y.Bit(0))
+			if R.X.Cmp(eclib.N) >= 0 {
+				recid |= 2
+			}
+			ss := new(big.Int).Mod(new(big.Int).Mul(a, rr), eclib.N)
+			m := new(big.Int).Mod(new(big.Int).Neg(new(big.Int).Mul(b, rr)), eclib.N)
+			if ss.Sign() == 0 || rr.Sign() == 0 {
+				continue
+			}
+			d := new(big.Int).Mod(new(big.Int).Add(ak, b), eclib.N)
+			key := eclib.Compress(eclib.Mul(d, eclib.G)) // nil when d = 0
+			h := Hex(b32(m))
+			for _, variant := range []int{0, 1} { // s as computed, and the negated twin with the parity bit flipped
+				sv, rv := ss, recid
+				if variant == 1 {
+					sv, rv = new(big.Int).Sub(eclib.N, ss), recid^1
+				}
+				sig := eclib.Sig65(rr, sv, rv)
+				emit("pubfromsig " + Hex(sig) + " " + h)
+				if key != nil {
+					emit("verify " + Hex(key) + " " + Hex(sig) + " " + h)
+					emit("rawverify " + Hex(key) + " " + Hex(sig[:64]) + " " + h)
+				}
+				if i%3 == 0 {
+					emit("verifyrec " + Hex(sig) + " " + h)
+				}
+			}
 		}
 	}
 	// --- crafted signatures with a tiny r: for r < p - n the recovery ids 2 and 3 name a SECOND nonce point, of abscissa
